@@ -66,12 +66,7 @@ func vbMakePlan(tier string) *vbPlan {
 	} else {
 		w4 = vbQuick4()
 	}
-	for j, l := range w1 {
-		p.add("enum/w1 (all layouts)", vbItem{Layout: l, Others: vbOthers(w1, j), Mode: "enum", OnlyID: -1})
-	}
-	for j, l := range w2 {
-		p.add("enum/w2 (all layouts)", vbItem{Layout: l, Others: vbOthers(w2, j), Mode: "enum", OnlyID: -1})
-	}
+	// the longest work items first, so that no single long item is left for the end
 	g4 := "enum/w4 (fixed list)"
 	if tier == "thorough" {
 		g4 = "enum/w4 (all layouts of <= 2 symbols)"
@@ -88,6 +83,12 @@ func vbMakePlan(tier string) *vbPlan {
 	// byte operators
 	for j, l := range w1 {
 		p.add("bytes/w1 (all layouts, every identifier)", vbItem{Layout: l, Mode: "bytes", OnlyID: -1, Short2: j == 0})
+	}
+	for j, l := range w1 {
+		p.add("enum/w1 (all layouts)", vbItem{Layout: l, Others: vbOthers(w1, j), Mode: "enum", OnlyID: -1})
+	}
+	for j, l := range w2 {
+		p.add("enum/w2 (all layouts)", vbItem{Layout: l, Others: vbOthers(w2, j), Mode: "enum", OnlyID: -1})
 	}
 	b2 := sq.MustParse("w2:TX1,A2,TAIL1")
 	if tier == "thorough" {
